@@ -546,6 +546,8 @@ theorem C08_axis_pairing (S : Spec) (ns sizes : List ℕ) (npop : ℕ) :
 section lowpass
 open LPAx Gen.ProjLP
 
+set_option linter.unusedTactic false in
+set_option linter.unreachableTactic false in
 /-- **The per-population loop of `lowpass_func` applies matrix k along axis k and restores the axis order.**
     `LowPass.make_low_pass_func_GATK_multisample` re-implements projection: its inner `lowpass_func` pushes the model
     spectrum `analytic` (d populations) through one projection matrix and one calling-error matrix per population.  The loop is
